@@ -305,6 +305,7 @@ package v1
 //@   requires forall b :: released[b] ==> allocated(b)
 //@   ensures forall b :: released[b] ==> allocated(b)
 //@   requires [C08.pool.elem] *buf != nil && len(*buf) == 65553 && allocated(*buf)
+//@   requires [C08.put.once] !released[(*buf).base]
 //@   modifies released
 //@   ensures *buf != nil ==> released[(*buf).base]
 //@   ensures forall b :: b != (*buf).base ==> released[b] == old(released[b])
@@ -406,6 +407,7 @@ package v1
 //@   requires forall b :: released[b] ==> allocated(b)
 //@   ensures forall b :: released[b] ==> allocated(b)
 //@   requires [C08.pool.elem] *buf != nil && len(*buf) == 65553 && allocated(*buf)
+//@   requires [C08.put.once] !released[(*buf).base]
 //@   modifies released
 //@   ensures *buf != nil ==> released[(*buf).base]
 //@   ensures forall b :: b != (*buf).base ==> released[b] == old(released[b])
@@ -512,7 +514,8 @@ package v1
 // C02 (1): the consumer goroutine (processSegments with S = 65552 and DecryptSegment) is started only after
 // VerifyHeaderSignature returned nil for exactly the manifest and MAC lines readHeader returned, under the key imported from the
 // unwrapped file key; a missing / failed / wrong-length unwrapped key is replaced by 32 zero bytes and still goes through the MAC
-// check. C01 (f): the key name handed to UnwrapKeyFn is opts.KeyName if set, else the manifest's; neither => ErrDecryptionKeyMissing.
+// check (timing), but no plaintext is ever released for it ([C02.dec.unwrapped]: anybody can compute a valid MAC and valid
+// segments under the all-zero placeholder key, so "the MAC verified" alone does not authenticate such a document). C01 (f): the key name handed to UnwrapKeyFn is opts.KeyName if set, else the manifest's; neither => ErrDecryptionKeyMissing.
 //@ func Decrypt
 //@   tags C01 C02 C07 C08
 //@   requires in == nil || (0 <= in.pos && in.pos <= in.total)
@@ -527,12 +530,16 @@ package v1
 //@   at before call UnwrapKeyFn#0 assert [C01.dec.keyname] arg2 == (opts.KeyName != "" ? opts.KeyName : manifestObj.KeyName) && arg2 != ""
 //@   at before call UnwrapKeyFn#0 assert [C01.dec.unwrapargs] arg0 == manifestObj.WFK && arg1 == manifestObj.KeyWrappingAlgorithm && kaCanon(arg1) && len(arg3) == 0 && len(arg4) == 0
 //@   at before call importFileKey#0 assert [C02.dec.keylen] len(arg0) == 32
-//@        && (len(call_UnwrapKeyFn_0_plaintextKey) == 32 ==> arg0 == call_UnwrapKeyFn_0_plaintextKey)
-//@        && (len(call_UnwrapKeyFn_0_plaintextKey) != 32 ==> (fresh(arg0) && (forall i :: 0 <= i && i < 32 ==> arg0[i] == 0)))
+//@        && ((call_UnwrapKeyFn_0_err == nil && len(call_UnwrapKeyFn_0_plaintextKey) == 32) ==> arg0 == call_UnwrapKeyFn_0_plaintextKey)
+//@        && (!(call_UnwrapKeyFn_0_err == nil && len(call_UnwrapKeyFn_0_plaintextKey) == 32) ==> (fresh(arg0) && (forall i :: 0 <= i && i < 32 ==> arg0[i] == 0)))
 //@   at before call importFileKey#0 assert [C02.dec.importargs] arg1 == manifestObj.NoncePrefix && len(arg1) == 7 && arg2 == manifestObj.Cipher && (arg2 == "AES-GCM" || arg2 == "CHACHA20-POLY1305")
 //@   at before call VerifyHeaderSignature#0 assert [C02.dec.verifyargs] arg0 == call_importFileKey_0_fk && arg1 == call_readHeader_0_manifest && arg2 == call_readHeader_0_mac
 //@   ghost macok bool
 //@   at call readHeader#0 ghost macok = false
 //@   at call VerifyHeaderSignature#0 ghost macok = (res0 == nil)
 //@   at before go#0 assert [C02.macfirst] macok && call_readHeader_0_err == nil && call_importFileKey_0_err == nil
+//@   at before go#0 assert [C02.dec.unwrapped] call_UnwrapKeyFn_0_err == nil && len(call_UnwrapKeyFn_0_plaintextKey) == 32
+//@   replay template encv1unwrap
+//@   replay val uerr = call_UnwrapKeyFn_0_err != nil
+//@   replay val keylen = len(call_UnwrapKeyFn_0_plaintextKey)
 //@   at before go#0 assert [C02.dec.spawn] in != nil && 0 <= in.pos && in.pos <= in.total && outW != nil && outW.cstate == 0
